@@ -9,8 +9,8 @@ PROP = {
     ],
     "targets": [
         {"name": "codecs_enum", "mode": "enum"},
-        {"name": "fixed", "quick": 1000000, "thorough": 20000000, "maxlen": 24},
-        {"name": "codecs", "quick": 1500000, "thorough": 30000000, "maxlen": 80},
+        {"name": "fixed", "quick": 3000000, "thorough": 30000000, "maxlen": 24},
+        {"name": "codecs", "quick": 3500000, "thorough": 40000000, "maxlen": 80},
     ],
     "fuzz": [{"name": "codecs", "secs": 60, "maxlen": 80}],
 }
